@@ -272,9 +272,26 @@ Dec(t) ==
   /\ pc' = [pc EXCEPT ![t] = "closed"]
   /\ UNCHANGED <<addr, list, owner, snap, ret, nextId>>
 
-NextB == \E t \in Threads : Load(t) \/ Lock(t) \/ Reload(t) \/ Store(t) \/ Inc(t) \/ Dec(t)
+(* Seeded fault "dec_load_store": the decrement is a load followed by a store instead of one atomic                *)
+(* read-modify-write (metrics.rs:799 is fetch_sub).  The loaded values are kept in snap[t], which has no other use   *)
+(* once get() has returned: <<[a |-> per-address count, m |-> global count]>>.                                       *)
+Monus(x) == IF x = 0 THEN 0 ELSE x - 1
+DecLoad(t) ==
+  /\ RegVariant = "dec_load_store" /\ pc[t] = "open"
+  /\ snap' = [snap EXCEPT ![t] = <<[a |-> cnt[ret[t]], m |-> global]>>]
+  /\ pc' = [pc EXCEPT ![t] = "decl"]
+  /\ UNCHANGED <<addr, list, owner, ret, nextId, cnt, global>>
+DecStore(t) ==
+  /\ pc[t] = "decl"
+  /\ cnt' = [cnt EXCEPT ![ret[t]] = Monus(snap[t][1].a)]
+  /\ global' = Monus(snap[t][1].m)
+  /\ pc' = [pc EXCEPT ![t] = "closed"]
+  /\ UNCHANGED <<addr, list, owner, snap, ret, nextId>>
 
-Has(t) == pc[t] \in {"got", "open", "closed"}
+NextB == \E t \in Threads : \/ Load(t) \/ Lock(t) \/ Reload(t) \/ Store(t) \/ Inc(t)
+                            \/ (RegVariant # "dec_load_store" /\ Dec(t)) \/ DecLoad(t) \/ DecStore(t)
+
+Has(t) == pc[t] \in {"got", "open", "decl", "closed"}
 Registered == {list[i].a : i \in 1..Len(list)}
 
 C36_OneEntryPerAddress == \A i, j \in 1..Len(list) : i # j => list[i].a # list[j].a
